@@ -19,6 +19,7 @@ def pkey(place):
 class Path:
     def __init__(self):
         self.calls = []      # (bb, Call)
+        self.callvals = []   # abstract argument values of each call, parallel to .calls
         self.blocks = []
         self.ret = None      # abstract value of _0 at return
         self.end = None      # 'return' | 'diverge' | 'loop' | 'unreachable'
@@ -36,6 +37,7 @@ class Walker:
         self.call_model = call_model  # f(walker, Call, store) -> abstract value or None
         self.variant_of = variant_of or {}   # pkey -> variant name (assumptions)
         self.max_paths = max_paths; self.max_visits = max_visits
+        self.stop = set()             # blocks at which a walk ends (path.end = 'stop') when reached after the start
         self._sw = {}
         self.paths = []
 
@@ -54,10 +56,15 @@ class Walker:
         p = op[1]
         if not p[1]:
             return store.get(p[0], UNKNOWN)
+        # a place assumed to hold a field-less variant (e.g. `self.comp` is None) reads as that variant
+        if self.variant_of.get(pkey(p)) == 'None':
+            return ('agg', 'std::option::Option', 'None', [])
         # field of a known aggregate
         base = store.get(p[0], UNKNOWN)
         v = base
         for pr in p[1]:
+            if pr[0] == '*':
+                continue
             if v is UNKNOWN or v[0] != 'agg':
                 return UNKNOWN
             if pr[0] == 'dc':
@@ -138,6 +145,24 @@ class Walker:
                 pos = a0[2] in ('Some', 'Ok')
                 want_pos = bool(re.search(r'is_(some|ok)$', c.name))
                 return ('c', pos == want_pos)
+        if c.is_(r'Option::<.*>::(copied|cloned|as_ref|as_deref)$', r'as std::clone::Clone>::clone$', r'as std::ops::Deref>::deref$'):
+            if a0 is not UNKNOWN and a0[0] in ('agg', 'c'):
+                return a0
+        # combinators that leave the empty/failed case as it is (the closure is not run)
+        if c.is_(r'Option::<.*>::(map|and_then|filter|and|zip|cloned|copied|as_ref|as_mut|as_deref|take)$'):
+            if a0 is not UNKNOWN and a0[0] == 'agg' and a0[2] == 'None':
+                return ('agg', 'std::option::Option', 'None', [])
+        if c.is_(r'Option::<.*>::(unwrap_or)$') and len(c.args) == 2:
+            if a0 is not UNKNOWN and a0[0] == 'agg' and a0[2] == 'None':
+                d = self.opval(c.args[1], store)
+                return d if d is not UNKNOWN else None
+        if c.is_(r'Option::<.*>::(map_or)$') and len(c.args) == 3:
+            if a0 is not UNKNOWN and a0[0] == 'agg' and a0[2] == 'None':
+                d = self.opval(c.args[1], store)
+                return d if d is not UNKNOWN else None
+        if c.is_(r'Option::<.*>::(unwrap_or_default)$'):
+            if a0 is not UNKNOWN and a0[0] == 'agg' and a0[2] == 'None' and re.search(r'Option::<bool>', c.full):
+                return ('c', False)
         return None
 
     def run(self, start=0, store=None):
@@ -150,6 +175,8 @@ class Walker:
         while True:
             if len(self.paths) >= self.max_paths:
                 raise Broken('%s: abstract walk exceeds %d paths' % (body.path, self.max_paths))
+            if b in self.stop and path.blocks:
+                path.end = 'stop'; path.store = store; self.paths.append(path); return
             visits[b] = visits.get(b, 0) + 1
             if visits[b] > self.max_visits:
                 path.end = 'loop'; self.paths.append(path); return
@@ -184,6 +211,7 @@ class Walker:
             if k in ('call', 'tailcall'):
                 c = Call(body, b, t)
                 path.calls.append((b, c))
+                path.callvals.append([self.opval(a_, store) for a_ in c.args])
                 v = None
                 if self.call_model and getattr(self.call_model, 'first', False):
                     v = self.call_model(self, c, store)
@@ -224,7 +252,7 @@ class Walker:
                 for outcome, nb in sw.edges.items():
                     if nb in done: continue
                     done.add(nb)
-                    p2 = Path(); p2.calls = list(path.calls); p2.blocks = list(path.blocks)
+                    p2 = Path(); p2.calls = list(path.calls); p2.callvals = list(path.callvals); p2.blocks = list(path.blocks)
                     p2.forks = path.forks + [(b, outcome)]; p2.writes = list(path.writes); p2.assigns = list(path.assigns)
                     self._go(nb, dict(store), p2, dict(visits))
                 return
